@@ -276,7 +276,7 @@ func (a *Auth) checkSession(sess string) (res checkSessionResult) {
 		return checkSessionNotFound
 	}
 
-	if s.expire <= now {
+	if s.expire < now {
 		delete(a.sessions, sess)
 		key, _ := hex.DecodeString(sess)
 		a.removeSessionFromFile(key)
